@@ -18,6 +18,7 @@ CONSTANTS
   MaxDup = 0
   MaxQ = 8
   MaxTO = 0
+  PROMPT = FALSE
 INVARIANTS
   NotBothDelivered
 CHECK_DEADLOCK FALSE
